@@ -265,6 +265,7 @@ static bool decide(const Val& c) {
     return mv;
   }
   if (SH->stop.load()) endProcess(0);
+  if (nowS() - T0 > OPT.wallCap) { SH->budgetHit++; SH->stop = 1; endProcess(0); }
   if (SH->paths.load() + SH->forks.load() / 2 > OPT.maxPaths) { SH->budgetHit++; endProcess(0); }
   if (forkHere()) {
     setModel(m2);
